@@ -35,13 +35,19 @@ ENV = dict(os.environ, CARGO_NET_OFFLINE="true", RUST_BACKTRACE="0")
 
 
 def sh(cmd, cwd=None, timeout=None, env=None):
+    # own session, so that on a timeout the whole process group (children of the harness included) is killed
+    proc = subprocess.Popen(cmd, cwd=cwd, stdout=subprocess.PIPE, stderr=subprocess.STDOUT, text=True,
+                            env=env or ENV, errors="replace", start_new_session=True)
     try:
-        p = subprocess.run(cmd, cwd=cwd, stdout=subprocess.PIPE, stderr=subprocess.STDOUT, text=True,
-                           timeout=timeout, env=env or ENV, errors="replace")
-    except subprocess.TimeoutExpired as e:
-        out = e.stdout.decode(errors="replace") if isinstance(e.stdout, bytes) else (e.stdout or "")
-        return 124, out + "\n[timed out after %ss: possible non-termination]" % timeout
-    return p.returncode, p.stdout
+        out, _ = proc.communicate(timeout=timeout)
+    except subprocess.TimeoutExpired:
+        try:
+            os.killpg(proc.pid, 9)
+        except OSError:
+            pass
+        out, _ = proc.communicate()
+        return 124, (out or "") + "\n[timed out after %ss: possible non-termination]" % timeout
+    return proc.returncode, out
 
 
 class Lock:
